@@ -632,6 +632,15 @@ def rule_EF1(ctx, tier):
                             kc = find_calls(keyt, "Transaction::compute_txid")
                             if kc and og.strip(call_args(kc[0])[0]) == og.strip(disp):
                                 good = True
+                            # ... and it is decrypted for THIS breach: the decrypt call must-precedes the Breach::new site on
+                            # every path since the loop iteration began (a penalty carried over from an earlier iteration /
+                            # another appointment has the same origin term but skips the call)
+                            site = bn[0][3] if len(bn[0]) > 3 else None
+                            if good and site and site[0] in P.bodies:
+                                sb = P.bodies[site[0]]
+                                sbb = [x for x in sb.rpo() if sb.orig(x) == site[1] and sb.term(x)["k"] == "call"]
+                                if not sbb or not all("teos_common::cryptography::decrypt" in ctx.pf.called_before(sb).get(x, set()) for x in sbb):
+                                    good = False
                     if good:
                         rr.ok("breach@%s = (dispute, decrypt(blob, txid(dispute)))" % shortfn(cb), sample={"rule": "EF1", "caller": cb, "breach": og.show(term)[:200]})
                     else:
